@@ -116,6 +116,9 @@ def judge_listing(ctx, ws, text, origin, force_history=False):
             continue
         line = rinsts[idx].raw if aligned else by_addr.get(inst[0])
         key = classify_line(line) if line else None
+        if key and not (inst[1].endswith((",pt", ",pn")) and inst[1].count(",") == 1 and "|" not in inst[1] and "::" not in inst[1]
+                        and all("," not in o and "|" not in o and "::" not in o for o in inst[2])):
+            key = None          # the open finding is exactly "the hint's comma stays in the mnemonic field"; anything else on such a line is new
         sig = key or objd.line_shape(refline.RInst(inst[0], refline.parse_text(refline.classify(line).text), 0, line)) if line else str(inst)
         if sig in reported:
             continue
